@@ -156,6 +156,11 @@ def histories(rng, nrand=50):
                                                               ["add", ["n_2", "r", P("B"), P("C")]]], style, "history/bridge"))
         out.append(_hist(net(["A + B <> C", "C >> 2 A"]), [["del", "r_2"], ["del", "r_3"]], style, "history/A+B=C"))
         out.append(_hist(net(["A + B <> C", "C >> 2 A", "B >> 0"]), [["rmsp", "B"], ["rmsp", "A"]], style, "history/remove-species"))
+        # same numbers of species / reactions / classes before and after, other rank (a cache keyed on the shape would be stale)
+        out.append(_hist(net(["A >> B", "C >> D"]), [["del", "r_2"], ["add", ["n_1", "r", P("C + D"), P("D + C")]]], style,
+                         "history/same-shape-other-rank"))
+        out.append(_hist(net(["A >> B", "B >> C", "C >> A"]), [["del", "r_3"], ["add", ["n_1", "r", P("C"), P("2 A")]]], style,
+                         "history/cycle-broken"))
     pool = [(l, r) for l, r in G.alphabet_reactions()]
     for k in range(nrand):
         nr = rng.randint(2, 5)
